@@ -124,6 +124,8 @@ var c01Twins = [][]string{
 	{"{{ 'tag <b>x</b>'|striptags }}", "{{ 'tag <i>y</i>'|striptags }}", "{{ '<b>x</b>'|length }}"},
 	// a sandboxed include followed by plain renders that use filters outside the policy (per-render flags left in pooled objects)
 	{"[{% include 'sbx_part' sandboxed %}]", "{{ 'a b'|url_encode }}{{ [3, 1]|sort|join }}", "[{% include 'sbx_part' sandboxed %}]{{ 'x y'|url_encode }}", "{{ 'q'|upper }}{{ max(1, 2) }}"},
+	// what is learnt about a type from one value must not be applied to another value of that type
+	{"{{ linkTail }}", "{{ linkHead }}", "{{ links|join('|') }}", "{{ [linkTail, linkHead]|join('|') }}", "{{ linkHead.Next.Name }}{{ linkTail.Next }}", "{{ links }}"},
 	// sandboxed includes of partials that only some engines' policies allow
 	{"[{% include 'sbx_url' sandboxed %}]", "[{% include 'sbx_strip' sandboxed %}]", "[{% include 'sbx_upper' sandboxed %}]", "[{% include 'sbx_part' sandboxed %}]{{ 'a b'|url_encode }}", "{{ '<i>y</i>'|striptags }}{{ 'q'|upper }}"},
 	// names that differ only in letter case, or share a prefix / a length (string tables, interning, case folding)
@@ -309,6 +311,11 @@ func c01NewEngine(st *c01Engine) (*twig.Engine, *twig.ArrayLoader) {
 	e.AddGlobal("gfl", []float64{2.5, 1.5, 3.5})
 	e.AddGlobal("glist", append(make([]interface{}, 0, 8), 3, 1, 2))
 	e.AddGlobal("gmap", map[string]interface{}{"b": 2, "a": 1, "list": []interface{}{"y", "x"}})
+	// values of one struct type whose pointer field is nil in one and set in the other
+	tail := c01Link{Name: "tail"}
+	e.AddGlobal("linkTail", tail)
+	e.AddGlobal("linkHead", c01Link{Name: "head", Next: &c01Link{Name: "mid", Next: &tail}})
+	e.AddGlobal("links", []c01Link{tail, {Name: "h2", Next: &tail}})
 	// every engine has a security policy (it only matters inside `include ... sandboxed`)
 	// (engine 0 extends the default policy in place, the way the documentation shows; engine 1 uses the default policy
 	// as it comes; engine 2 replaces the allow-lists: what one engine allows is no other engine's business)
@@ -414,6 +421,11 @@ func (f *failWriter) Write(b []byte) (int, error) {
 	}
 	f.left -= len(b)
 	return len(b), nil
+}
+
+type c01Link struct {
+	Name string
+	Next *c01Link
 }
 
 type c01Struct struct {
